@@ -147,6 +147,19 @@ func generate(prop string, seed uint64, run int, tier string) *Scenario {
 		sc.TR.Logger, sc.TR.LogMask = true, mask
 	}
 
+	// a side actor that calls ExpireAll on the backend while Gets are in flight: only for the properties
+	// whose oracles do not reason about freshness
+	if sc.FO != nil && !sc.FO.DefaultBackend && len(sc.FO.Clients) > 0 && chance(lr, 0.2) {
+		switch prop {
+		case "C01", "C02", "C04", "C09", "C16":
+			c := lr.IntN(len(sc.FO.Clients))
+			at := lr.IntN(len(sc.FO.Clients[c]) + 1)
+			ops := append([]FOOp(nil), sc.FO.Clients[c][:at]...)
+			ops = append(ops, FOOp{Kind: "expireAll"})
+			sc.FO.Clients[c] = append(ops, sc.FO.Clients[c][at:]...)
+		}
+	}
+
 	// what failing builders' errors wrap (same separate generator)
 	if sc.FO != nil {
 		if prop != "C03" { // a dimension of C03's table
